@@ -184,6 +184,52 @@ def apply_relayout(path: str, spec: dict) -> dict:
             n_split += 1
         done["tiles_split_in_two"] = n_split
 
+    if "empty_row_headers" in kinds:
+        # a row record in the TILE for rows that have none (they read as empty either way): with a full offset table in
+        # which every column is absent (what writers emit for a row of empty cells), or with the required fields only
+        n_tile_rows = 0
+        for t in pkg.table_models():
+            tiles, tile_size = pkg.tiles_of(t)
+            ncols = t.msg.number_of_columns
+            nrows = t.msg.number_of_rows
+            have = set()
+            by_tid = {}
+            for tid, tobj in tiles:
+                if tobj is None or tobj.type_name != "TST.Tile":
+                    continue
+                by_tid.setdefault(tid, tobj)
+                for ri in tobj.msg.rowInfos:
+                    have.add(tid * tile_size + ri.tile_row_index)
+            cands = [r for r in range(nrows) if r not in have and (r // tile_size) in by_tid]
+            rng.shuffle(cands)
+            for r in cands[: max(1, len(cands) // 2)] if cands else []:
+                tobj = by_tid[r // tile_size]
+                ri = type(tobj.msg.rowInfos[0])() if len(tobj.msg.rowInfos) else None
+                if ri is None:
+                    continue
+                ri.tile_row_index = r % tile_size
+                ri.cell_count = 0
+                ri.cell_storage_buffer_pre_bnc = b""
+                ri.cell_offsets_pre_bnc = b""
+                if rng.random() < 0.5:
+                    ri.storage_version = 5
+                    ri.cell_storage_buffer = b""
+                    ri.cell_offsets = struct.pack(f"<{ncols}h", *([-1] * ncols))
+                    ri.has_wide_offsets = rng.random() < 0.5
+                raws = [x.SerializeToString() for x in tobj.msg.rowInfos]
+                raws.insert(rng.randrange(len(raws) + 1), ri.SerializeToString())
+                cls = type(tobj.msg.rowInfos[0])
+                del tobj.msg.rowInfos[:]
+                for raw in raws:
+                    x = cls()
+                    x.ParseFromString(raw)
+                    tobj.msg.rowInfos.append(x)
+                tobj.msg.numrows = len(tobj.msg.rowInfos)
+                tobj.commit()
+                touched_members.add(tobj.member)
+                n_tile_rows += 1
+        done["empty_row_tile_records_added"] = n_tile_rows
+
     if "empty_row_headers" in kinds or "header_order" in kinds:
         added = reordered = 0
         for t in pkg.table_models():
